@@ -683,6 +683,46 @@ def sample_walk(view, env, start=0):
 _VALUE_COMBINATOR = re.compile(r"^std::(bool::then|option::Option::(map|and_then|map_or|map_or_else)|result::Result::(map|and_then))$")
 
 
+_FOLD_RE = re.compile(r"as std::iter::Iterator>::(fold|try_fold)$")
+
+
+def _fold_shape(view, b, t, depth):
+    """`xs.iter().(try_)fold(init, |acc, x| acc + x)` over a fixed-size array is the sum (product) of init and the
+    elements: ("add", (init, xs[0], .., xs[n-1])). None when the closure is not a plain accumulate or the length is unknown."""
+    model = getattr(view, "model", None)
+    if model is None:
+        return None
+    cps = [o.a for o in view.origins_of_operand(t["args"][2], at=view.at_term(b)) if o.kind == "closure" and o.a in model.fnsrc]
+    if len(cps) != 1:
+        return None
+    cv = model.view(cps[0])
+    rets = [norm_shape(expr_shape(cv, {"k": "copy", "pl": {"l": 0, "p": []}}, cv.at_term(rb), 4)) for rb in cv.return_blocks()]
+    if len(rets) != 1 or not isinstance(rets[0], tuple) or rets[0][0] not in ("add", "mul") or sorted(rets[0][1]) != ["param(2)", "param(3)"]:
+        return None
+    # the iterated array and its length
+    n = None
+    with view.opaque(r"std::slice::iter$|IntoIterator>::into_iter$"):
+        its = view.origins_of_operand(t["args"][0], at=view.at_term(b))
+    recv = None
+    for o in its:
+        c = call_of(view, o)
+        if c:
+            recv = (c[1]["args"][0], view.at_term(c[0]))
+    if recv is None:
+        return None
+    op = recv[0]
+    if op["k"] in ("copy", "move"):
+        for l in [op["pl"]["l"]] + sorted(view.alias_roots(op["pl"]["l"])):
+            m = re.search(r"\[.*; (\d+)\]", str(view.local_ty(l)))
+            if m:
+                n = int(m.group(1))
+                break
+    if n is None or n > 8:
+        return None
+    elems = tuple(expr_shape(view, recv[0], recv[1], depth - 1, proj=("[%d]" % k,)) for k in range(n))
+    return (rets[0][0], (expr_shape(view, t["args"][1], view.at_term(b), depth - 1),) + elems)
+
+
 def _closure_result_shapes(view, b, t, depth):
     """`cond.then(|| e)`, `opt.map(|x| e)`, ...: the value is what the closure computes. Shapes of the closure's results
     with its captured variables replaced by the shapes of what was captured; None when the closure cannot be read."""
@@ -723,11 +763,11 @@ def _subst_shape(sh, subst):
     return (sh[0], tuple(_subst_shape(x, subst) for x in sh[1])) + tuple(sh[2:])
 
 
-def expr_shape(view, operand, at, depth=8, _seen=None, subst=None):
+def expr_shape(view, operand, at, depth=8, _seen=None, subst=None, proj=()):
     """Nested tuple describing how the operand is computed inside this function: ("callee", (arg shapes..)) for
     a non-transparent call or primitive operation, "param(i).f" / "const" / "load(..)" for leaves. Several reaching
     definitions give ("phi", shapes..). Transparent calls (clone, into, `?`, unwrap, ...) do not appear."""
-    os_ = view.origins_of_operand(operand, at=at)
+    os_ = view.origins_of_operand(operand, at=at, proj=proj)
     shapes = []
     for o in sorted(os_, key=repr):
         if o.kind == "err":
@@ -736,6 +776,11 @@ def expr_shape(view, operand, at, depth=8, _seen=None, subst=None):
             c = call_of(view, o)
             if c is not None:
                 b, t = c
+                if _FOLD_RE.search(mname(t)) and len(t["args"]) == 3 and subst is None and not o.proj:
+                    folded = _fold_shape(view, b, t, depth)
+                    if folded is not None:
+                        shapes.append(folded)
+                        continue
                 if _VALUE_COMBINATOR.search(mname(t)) and subst is None:
                     inner = _closure_result_shapes(view, b, t, depth)
                     if inner is not None:
@@ -794,5 +839,11 @@ def norm_shape(sh):
                 flat.extend(a[1])
             else:
                 flat.append(a)
+        unit = "const(0)" if name == "add" else "const(1)"
+        kept = [a for a in flat if a != unit]
+        if kept and len(kept) < len(flat):
+            flat = kept            # x + 0 / x * 1
+            if len(flat) == 1:
+                return flat[0]
         args = tuple(sorted(flat, key=repr))
     return (name, args) if len(sh) == 2 else (name, args, sh[2])
